@@ -4,6 +4,7 @@ import (
 	"go/token"
 	"go/types"
 	"math"
+	"sort"
 	"strconv"
 	"strings"
 
@@ -64,6 +65,17 @@ func condAtoms(v ssa.Value, truth bool, subst map[*ssa.Parameter]string, ifi *ss
 			}
 		}
 	case *ssa.Call:
+		if cc := x.Call.StaticCallee(); cc != nil && len(cc.Blocks) > 1 && depth < 3 && isBool(x.Type()) && predicateLike(cc) {
+			ns := map[*ssa.Parameter]string{}
+			for i, p := range cc.Params {
+				if i < len(x.Call.Args) {
+					ns[p] = exprDepth(x.Call.Args[i], subst, 0)
+				}
+			}
+			if at := impliedAtoms(cc, truth, ns, ifi, depth+1); len(at) > 0 {
+				return at
+			}
+		}
 		if cc := x.Call.StaticCallee(); cc != nil && len(cc.Blocks) == 1 {
 			if _, ok := inlinePure(cc, x.Call.Args, subst, 0); ok {
 				ret := cc.Blocks[0].Instrs[len(cc.Blocks[0].Instrs)-1].(*ssa.Return)
@@ -106,7 +118,9 @@ func edgeDominates(d *ssa.BasicBlock, i int, blk *ssa.BasicBlock) bool {
 }
 
 // FactsAtBlock returns the atoms established by every branch that dominates blk.
-func FactsAtBlock(blk *ssa.BasicBlock) Facts {
+func FactsAtBlock(blk *ssa.BasicBlock) Facts { return factsAtBlockSubst(blk, nil, 0) }
+
+func factsAtBlockSubst(blk *ssa.BasicBlock, subst map[*ssa.Parameter]string, depth int) Facts {
 	var out Facts
 	for d := blk.Idom(); d != nil; d = d.Idom() {
 		if len(d.Instrs) == 0 {
@@ -117,9 +131,9 @@ func FactsAtBlock(blk *ssa.BasicBlock) Facts {
 			continue
 		}
 		if edgeDominates(d, 0, blk) {
-			out = append(out, condAtoms(ifi.Cond, true, nil, ifi, 0)...)
+			out = append(out, condAtoms(ifi.Cond, true, subst, ifi, depth)...)
 		} else if edgeDominates(d, 1, blk) {
-			out = append(out, condAtoms(ifi.Cond, false, nil, ifi, 0)...)
+			out = append(out, condAtoms(ifi.Cond, false, subst, ifi, depth)...)
 		}
 	}
 	return out
@@ -504,4 +518,138 @@ func (p *Prog) liveBlocks(fn *ssa.Function) map[*ssa.BasicBlock]bool {
 	m := LiveBlocks(fn)
 	p.live[fn] = m
 	return m
+}
+
+// predicateLike: a module function without writes whose calls are interface predicates or pure helpers.
+func predicateLike(fn *ssa.Function) bool {
+	if fn.Pkg == nil || !(fn.Pkg.Pkg.Path() == ModPath || strings.HasPrefix(fn.Pkg.Pkg.Path(), ModPath+"/")) {
+		return false
+	}
+	if fn.Signature.Results().Len() != 1 {
+		return false
+	}
+	ok := true
+	n := 0
+	for _, b := range fn.Blocks {
+		if NaturalLoop(b) != nil {
+			return false // loops: no useful path summary
+		}
+	}
+	Instrs(fn, func(in ssa.Instruction) {
+		n++
+		switch x := in.(type) {
+		case *ssa.Store, *ssa.MapUpdate, *ssa.Go, *ssa.Defer, *ssa.Send, *ssa.Panic:
+			ok = false
+		case *ssa.Call:
+			if b, isB := x.Call.Value.(*ssa.Builtin); isB {
+				if b.Name() != "len" && b.Name() != "cap" {
+					ok = false
+				}
+			}
+		}
+	})
+	return ok && n < 60
+}
+
+// impliedAtoms: the atoms that hold on every path of the boolean function fn that returns `truth`.
+func impliedAtoms(fn *ssa.Function, truth bool, subst map[*ssa.Parameter]string, ifi *ssa.If, depth int) []Atom {
+	var sets [][]Atom
+	add := func(at []Atom) { sets = append(sets, at) }
+	want := "true"
+	if !truth {
+		want = "false"
+	}
+	var fromValue func(v ssa.Value, blk *ssa.BasicBlock)
+	fromValue = func(v ssa.Value, blk *ssa.BasicBlock) {
+		switch x := v.(type) {
+		case *ssa.Const:
+			if Expr(x) == want {
+				add(factsAtBlockSubst(blk, subst, depth))
+			}
+		case *ssa.Phi:
+			for i, e := range x.Edges {
+				pred := x.Block().Preds[i]
+				if cst, isC := e.(*ssa.Const); isC {
+					if Expr(cst) == want {
+						add(append(edgeAtoms(pred, x.Block(), subst, depth), factsAtBlockSubst(pred, subst, depth)...))
+					}
+					continue
+				}
+				at := condAtoms(e, truth, subst, nil, depth)
+				at = append(at, edgeAtoms(pred, x.Block(), subst, depth)...)
+				at = append(at, factsAtBlockSubst(pred, subst, depth)...)
+				add(at)
+			}
+		default:
+			at := condAtoms(v, truth, subst, nil, depth)
+			add(append(at, factsAtBlockSubst(blk, subst, depth)...))
+		}
+	}
+	Instrs(fn, func(in ssa.Instruction) {
+		if r, ok := in.(*ssa.Return); ok && len(r.Results) == 1 {
+			fromValue(r.Results[0], r.Block())
+		}
+	})
+	if len(sets) == 0 {
+		return nil
+	}
+	// intersection by rendered atom
+	count := map[string]int{}
+	first := map[string]Atom{}
+	for _, s := range sets {
+		seen := map[string]bool{}
+		for _, a := range s {
+			k := a.String()
+			if !seen[k] {
+				seen[k] = true
+				count[k]++
+				if _, ok := first[k]; !ok {
+					first[k] = a
+				}
+			}
+		}
+	}
+	var out []Atom
+	for k, n := range count {
+		if n == len(sets) {
+			a := first[k]
+			a.If = ifi
+			out = append(out, a)
+		}
+	}
+	sort.Slice(out, func(i, j int) bool { return out[i].String() < out[j].String() })
+	return out
+}
+
+// edgeAtoms: the condition under which control goes from pred to succ.
+func edgeAtoms(pred, succ *ssa.BasicBlock, subst map[*ssa.Parameter]string, depth int) []Atom {
+	if len(pred.Instrs) == 0 {
+		return nil
+	}
+	ifi, ok := pred.Instrs[len(pred.Instrs)-1].(*ssa.If)
+	if !ok || len(pred.Succs) != 2 || pred.Succs[0] == pred.Succs[1] {
+		return nil
+	}
+	return condAtoms(ifi.Cond, pred.Succs[0] == succ, subst, nil, depth)
+}
+
+// ImpliedByCall exposes the path summary of a boolean predicate call: atoms that hold whenever it returns truth.
+func ImpliedByCall(call *ssa.Call, truth bool) []Atom {
+	cc := call.Call.StaticCallee()
+	if cc == nil || !predicateLike(cc) {
+		return nil
+	}
+	ns := map[*ssa.Parameter]string{}
+	for i, p := range cc.Params {
+		if i < len(call.Call.Args) {
+			ns[p] = Expr(call.Call.Args[i])
+		}
+	}
+	if len(cc.Blocks) == 1 {
+		if r, ok := cc.Blocks[0].Instrs[len(cc.Blocks[0].Instrs)-1].(*ssa.Return); ok && len(r.Results) == 1 {
+			return condAtoms(r.Results[0], truth, ns, nil, 1)
+		}
+		return nil
+	}
+	return impliedAtoms(cc, truth, ns, nil, 1)
 }
